@@ -84,12 +84,15 @@ def check_config(model, cfg, cache=None):
     if ck not in cache:
         try:
             lp, info = O.base_problem(model, cfg["fraction"], cfg["pfba"])
-            cache[ck] = (lp, info, O.ranges(lp, all_ids))
+            cache[ck] = (lp, info, {})
         except O.NoOptimum as e:
             cache[ck] = (None, {"status": str(e)}, None)
     lp, info, exact = cache[ck]
     if lp is None:
         return out, {"domain": False}
+    for r in rids:
+        if r not in exact:
+            exact[r] = lp.range_of(r)
     opt = info["opt"]
     sign_ok = opt >= 0 if cfg["direction"] == "max" else opt <= 0
     if cfg["fraction"] != 1.0 and not sign_ok:
@@ -227,11 +230,32 @@ def _loopless_plans(rng, model, tier, max_cyc):
     return plans
 
 
+def _build(desc):
+    if "shipped" in desc:
+        from cobra.io import load_model
+        return load_model(desc["shipped"])
+    return U.rebuild(desc)
+
+
+def _shipped_plans(rng, idx):
+    from cobra.io import load_model
+    ids = [r.id for r in load_model("textbook").reactions]
+    sub = lambda k: rng.sample(ids, k)  # noqa
+    return [dict(direction="max", fraction=1.0, pfba=None, rl="ids", rids=sub(30), processes=2, loopless=False),
+            dict(direction="max", fraction=0.5, pfba=1.5, rl="ids", rids=sub(20), processes=1, loopless=False),
+            dict(direction="max", fraction=0.0, pfba=None, rl="objects", rids=sub(30), processes=2, loopless=False),
+            dict(direction="min", fraction=1.0, pfba=None, rl="objects", rids=sub(30), processes=1, loopless=False),
+            dict(direction="max", fraction=1.0, pfba=1.0, rl="none", rids=None, processes=2, loopless=False),
+            dict(direction="max", fraction=1.0, pfba=None, rl="ids", rids=sub(12), processes=1, loopless=True, brute=False)][idx]
+
+
 def _task(task):
     kind, seed, idx, n, tier, max_cyc = task
     U.quiet()
-    rng = random.Random(seed * 1000003 + idx * 7 + {"plain": 1, "loop": 2, "corner": 3, "net": 4}[kind])
-    if kind == "corner":
+    rng = random.Random(seed * 1000003 + idx * 7 + {"plain": 1, "loop": 2, "corner": 3, "net": 4, "shipped": 5}[kind])
+    if kind == "shipped":
+        ms = [({"shipped": "textbook"}, [_shipped_plans(rng, idx)])]
+    elif kind == "corner":
         ms = [(m, "both") for m in corner_models()]
     elif kind == "plain":
         ms = [(gen.random_model(rng, with_genes=False), "plain") for _ in range(n)]
@@ -257,16 +281,19 @@ def _task(task):
     res = {"evals": 0, "skipped": 0, "sigs": {}, "fails": [], "samples": [], "raised": {}, "brute": 0, "brute_empty": 0,
            "loopless": 0}
     for m, what in ms:
-        desc = U.describe(m)
-        sig = hash(U.signature(m))
-        plans = []
-        if what in ("plain", "both"):
-            plans += _plans(rng, m, tier)
-        if what in ("loop", "both"):
-            plans += _loopless_plans(rng, m, tier, max_cyc)
+        if isinstance(m, dict):
+            desc, sig, plans = m, hash(m["shipped"]), what
+        else:
+            desc = U.describe(m)
+            sig = hash(U.signature(m))
+            plans = []
+            if what in ("plain", "both"):
+                plans += _plans(rng, m, tier)
+            if what in ("loop", "both"):
+                plans += _loopless_plans(rng, m, tier, max_cyc)
         cache = {}
         for cfg in plans:
-            mm = U.rebuild(desc)
+            mm = _build(desc)
             try:
                 fails, info = check_config(mm, cfg, cache)
             except Exception as e:  # noqa
@@ -286,15 +313,16 @@ def _task(task):
             key = (sig, cfg["direction"], cfg["fraction"], cfg["pfba"], cfg["rl"], tuple(cfg["rids"] or ()), cfg["processes"], cfg["loopless"])
             res["sigs"][key] = bool(info.get("nontrivial")) and not info.get("raised")
             for k, text in fails:
-                res["fails"].append((k, text, {"model": desc, "cfg": cfg, "key": k}, U.size_of(desc)))
-            if not res["samples"] and info.get("nontrivial") and not fails and cfg["pfba"] is not None:
+                res["fails"].append((k, text, {"model": desc, "cfg": cfg, "key": k}, U.size_of(desc) if "reactions" in desc else 10**6))
+            if not res["samples"] and info.get("nontrivial") and not fails and cfg["pfba"] is not None and "reactions" in desc:
                 res["samples"].append({"model": desc, "cfg": cfg})
     return res
 
 
 TIERS = {
     "quick": {"plain_chunks": 72, "plain_n": 1, "net_chunks": 24, "net_n": 1, "loop_chunks": 60, "loop_n": 2, "max_cyc": 4},
-    "thorough": {"plain_chunks": 256, "plain_n": 3, "net_chunks": 128, "net_n": 2, "loop_chunks": 256, "loop_n": 4, "max_cyc": 6},
+    "thorough": {"plain_chunks": 256, "plain_n": 3, "net_chunks": 128, "net_n": 2, "loop_chunks": 256, "loop_n": 4, "max_cyc": 6,
+                 "shipped": 6},
 }
 
 
@@ -302,7 +330,8 @@ def run(tier, seed):
     t0 = time.time()
     U.quiet()
     cfg = TIERS[tier]
-    tasks = [("loop", seed, i, cfg["loop_n"], tier, cfg["max_cyc"]) for i in range(cfg["loop_chunks"])]   # heaviest first
+    tasks = [("shipped", seed, i, 1, tier, cfg["max_cyc"]) for i in range(cfg.get("shipped", 0))]         # heaviest first
+    tasks += [("loop", seed, i, cfg["loop_n"], tier, cfg["max_cyc"]) for i in range(cfg["loop_chunks"])]
     tasks += [("corner", seed, 0, 0, tier, cfg["max_cyc"])]
     tasks += [("plain", seed, i, cfg["plain_n"], tier, cfg["max_cyc"]) for i in range(cfg["plain_chunks"])]
     tasks += [("net", seed, i, cfg["net_n"], tier, cfg["max_cyc"]) for i in range(cfg["net_chunks"])]
@@ -334,6 +363,7 @@ def run(tier, seed):
         "bounds": {"tier": tier, "seed": seed, "models_generated": n_models, "fractions": [0.0, 0.5, 1.0], "pfba_factors": [None, 1.0, 1.5],
                    "processes": [1, 2], "random_models": "bcc.gen.random_model (<=4 metabolites, <=5 internal reactions, full BOUNDS), "
                    "bcc.c19_gen.structured_model (<=4 core metabolites), 8 corner models",
+                   "shipped_model_calls": ("textbook x %d configurations" % cfg.get("shipped", 0)),
                    "loopless_calls": loopless, "loopless_calls_compared_with_brute_force": brute,
                    "loopless_calls_without_cycle_free_point": brute_empty, "max_cycle_reactions_brute_force": cfg["max_cyc"],
                    "configurations_outside_domain_skipped": skipped, "calls_that_raised": raised,
@@ -346,7 +376,7 @@ def run(tier, seed):
 
 def replay(payload_replay):
     U.quiet()
-    m = U.rebuild(payload_replay["model"])
+    m = _build(payload_replay["model"])
     fails, _ = check_config(m, payload_replay["cfg"])
     key = payload_replay.get("key")
     hits = [t for k, t in fails if key is None or k == key]
